@@ -156,6 +156,20 @@ def case_cond_ops(cls, R, Dy, Dx):
         for which in ("joint", "marginal", "conditional"):
             full = m.transform(which, c1.reg, pR.reg); part = m.transform(which, c1.reg, pRs)
             same_obj(fails, f"{which}:{cls}:batch-of-marginals", m.regs.get(m.slice(full, idx)) if m.regs.get(full) is not None else None, m.regs.get(part), params, tol=1e-7)
+        # expected log-conditionals against a batch of marginals / joints: component r only sees component r
+        yR = gen.points(rng, R, Dy)
+        for cf in (False, True):
+            full = m.log_cond_y(c1.reg, pR.reg, m.arr(yR), callable_form=cf); part = m.log_cond_y(c1.reg, pRs, m.arr(yR[w]), callable_form=cf)
+            if m.regs.get(full) is not None and m.regs.get(part) is not None:
+                fail_if(fails, PROPERTY, f"integrate_log_conditional_y:{cls}", "expected log-conditional of the slice != slice", np.asarray(m.regs[part]), np.asarray(m.regs[full])[w], params=params)
+            else:
+                fails.append(failure(PROPERTY, f"integrate_log_conditional_y:{cls}", "raised", params=params))
+        qR = mk_pdf(m, rng, R, Dy + Dx); qRs = m.slice(qR.reg, idx)
+        full = m.log_cond(c1.reg, qR.reg); part = m.log_cond(c1.reg, qRs)
+        if m.regs.get(full) is not None and m.regs.get(part) is not None:
+            fail_if(fails, PROPERTY, f"integrate_log_conditional:{cls}", "expected log-conditional of the slice != slice", np.asarray(m.regs[part]), np.asarray(m.regs[full])[w], params=params)
+        else:
+            fails.append(failure(PROPERTY, f"integrate_log_conditional:{cls}", "raised", params=params))
         # condition_on_x: r*N+n
         N = 3
         x = gen.points(rng, N, Dx); xr = m.arr(x)
